@@ -102,7 +102,10 @@ fn sweep(m: &Msg, run: Run, tier: Tier, rep: &mut Report) {
             rep.violation(&key("skipping-cost-below-skipped-nodes"), format!("skipping cost {cs} is below the {} skipped value nodes", mc.skipped_nodes), case(json!({"skipped_nodes": mc.skipped_nodes})));
         }
         // upper bound: a small constant multiple of the documented model
-        let bound = UPPER_K * mc.decoding.max(1);
+        // (a message whose whole model cost is at most TINY_MODEL is dominated by fixed per-attempt charges - a failed
+        // attempt below an option keeps what it spent, at the 50x rate of untyped decoding - which the documented
+        // formula, "roughly defined" by its own words, does not itemise: those get an additive allowance)
+        let bound = UPPER_K * mc.decoding.max(1) + if mc.decoding <= TINY_MODEL { TINY_SLACK } else { 0 };
         if cd as u64 > bound {
             rep.violation(&key("cost-above-model"), format!("decoding cost {cd} exceeds {UPPER_K} x the documented model cost {}", mc.decoding), case(json!({"model": mc.decoding})));
         }
@@ -200,6 +203,9 @@ fn sweep(m: &Msg, run: Run, tier: Tier, rep: &mut Report) {
 const UPPER_K: u64 = 4;
 /// slack of the skipping-cost bound (fixed per-message charges)
 const SKIP_SLACK: u64 = 16;
+/// model cost up to which a message counts as tiny, and the additive allowance such messages get on the upper bound
+const TINY_MODEL: u64 = 256;
+const TINY_SLACK: u64 = 2048;
 
 pub fn run(tier: Tier, replay: Option<&str>) -> i32 {
     let lim = Limits::default();
